@@ -229,6 +229,11 @@ def handle (toks : List String) : String :=
   match toks with
   | "tie?" :: rest => tieProbe rest
   | "fmbig" :: _ => "skip large-n (oracle only)"
+  -- the same case through another input type / calling context / special-value encoding: the model
+  -- ignores those by construction and predicts the plain case
+  | "fmv" :: _variant :: rest => handleFm rest
+  | "fmconc" :: _ => "skip concurrent-batch (each call is its own fmv line)"
+  | "fmproc" :: _ => "skip child-process-sequence (judged in the child)"
   | "fmr" :: rest =>
     match (rest.dropWhile (· ≠ ";;")) with
     | _ :: second => handleFm second
